@@ -81,6 +81,17 @@ func (e *Env) rv(v Val) Val {
 			e.g.assume("(validslice " + t + ")") // memory is well typed: slice headers are valid
 		}
 	}
+	// memory is well typed: a pointer cell holds nil or the address of an allocated object
+	if _, isPtr := v.GoT.Underlying().(*types.Pointer); isPtr && !strings.Contains(t, "q!") && !strings.Contains(t, "dummy!") && e.g.lines != nil && st != nil && st.A != "" {
+		key := t + "@" + st.A
+		if e.g.rangeSeen == nil {
+			e.g.rangeSeen = map[string]bool{}
+		}
+		if !e.g.rangeSeen[key] {
+			e.g.rangeSeen[key] = true
+			e.g.assume("(< (l_obj " + t + ") " + st.A + ")")
+		}
+	}
 	return Val{T: t, Sort: e.u().sortOf(v.GoT), GoT: v.GoT}
 }
 
